@@ -19,6 +19,7 @@ import (
 	"context"
 	"encoding/hex"
 	"fmt"
+	"io"
 	"net"
 
 	"strconv"
@@ -174,19 +175,21 @@ END\r\n
 			byteCount := string(parts[4])
 
 			v, err := strconv.Atoi(byteCount)
-			if err != nil {
+			if err != nil || v < 0 {
 				return fmt.Errorf("Byte count is not a number: %s", string(command))
 			}
 			count := v
 
+			// the first bytes of the data block, however it is segmented
 			buff := make([]byte, 80)
+			if count < len(buff) {
+				buff = buff[:count]
+			}
 
-			n, err := b.Read(buff)
+			n, err := io.ReadFull(b, buff)
 			if err != nil {
 				return err
 			}
-
-			buff = buff[:n]
 
 			// discard rest of payload
 			count -= n
